@@ -23,7 +23,7 @@ func xGenProp(prop string, kind int, tier string, seed uint64, n int, e *Emitter
 // wrap, when given, turns the xcase term into the case type of another runner
 func xGenPropWrap(prop string, kind int, tier string, seed uint64, n int, e *Emitter, wrap func(string) string) {
 	if n == 0 {
-		n = 400
+		n = 300
 		if tier == "thorough" {
 			n = 6000
 		}
@@ -72,44 +72,48 @@ func xGenPropWrap(prop string, kind int, tier string, seed uint64, n int, e *Emi
 		inputs := g.inputs(doc.Ops[opIdx])
 		entry := []string{"do", "execute", "plan"}[i%3]
 		rq := &xRequest{s: s, doc: doc, text: text, op: op, inputs: inputs, pol: pol, seed: seed*1000003 + uint64(i), entry: entry, kind: kind}
-		obs := xRun(rq)
-		if obs.invalid && g.expectInvalid {
-			// deliberately invalid (Int literal outside 32 bits): rejection is the conforming answer
-			e.Emit(Case{Group: prop + "-rejected-by-validation", Desc: obs.desc, NT: true, Tags: []string{"oob-int-literal", "rejected"}})
-			continue
+		if entry == "plan" {
+			rq.moreInputs = []map[string]interface{}{g.inputs(doc.Ops[opIdx]), g.inputs(doc.Ops[opIdx])}
 		}
-		if obs.invalid {
-			invalid++
-			e.Emit(Case{Group: "generator-invalid", Desc: obs.desc, Tags: []string{"generator-invalid"}, Fail: strings.Join(obs.fails, "; ")})
-			continue
+		for _, obs := range xRun(rq) {
+			if obs.invalid && g.expectInvalid {
+				// deliberately invalid (Int literal outside 32 bits): rejection is the conforming answer
+				e.Emit(Case{Group: prop + "-rejected-by-validation", Desc: obs.desc, NT: true, Tags: []string{"oob-int-literal", "rejected"}})
+				continue
+			}
+			if obs.invalid {
+				invalid++
+				e.Emit(Case{Group: "generator-invalid", Desc: obs.desc, Tags: []string{"generator-invalid"}, Fail: strings.Join(obs.fails, "; ")})
+				continue
+			}
+			tags := append([]string{"entry-" + entry}, obs.tags...)
+			if g.expectInvalid {
+				tags = append(tags, "oob-int-literal-accepted")
+			}
+			if strings.Contains(text, "...") {
+				tags = append(tags, "fragments")
+			}
+			if strings.Contains(text, "(if: $") {
+				tags = append(tags, "variable-directive")
+			}
+			if strings.Contains(text, "@") {
+				tags = append(tags, "directive")
+			}
+			if len(doc.Ops) > 1 {
+				tags = append(tags, "multi-op")
+			}
+			if doc.Ops[opIdx].Kind == "mutation" {
+				tags = append(tags, "mutation")
+			}
+			nt := strings.Contains(text, "...") || strings.Contains(text, "@") || strings.Contains(text, "_1") || strings.Contains(text, "_2")
+			if wrap != nil {
+				obs.coq = wrap(obs.coq)
+			}
+			c := Case{Group: prop + "-request", Coq: obs.coq, Desc: obs.desc, NT: nt && obs.nCalls > 0, Tags: tags}
+			if len(obs.fails) > 0 {
+				c.Fail = strings.Join(obs.fails, "; ")
+			}
+			e.Emit(c)
 		}
-		tags := append([]string{"entry-" + entry}, obs.tags...)
-		if g.expectInvalid {
-			tags = append(tags, "oob-int-literal-accepted")
-		}
-		if strings.Contains(text, "...") {
-			tags = append(tags, "fragments")
-		}
-		if strings.Contains(text, "(if: $") {
-			tags = append(tags, "variable-directive")
-		}
-		if strings.Contains(text, "@") {
-			tags = append(tags, "directive")
-		}
-		if len(doc.Ops) > 1 {
-			tags = append(tags, "multi-op")
-		}
-		if doc.Ops[opIdx].Kind == "mutation" {
-			tags = append(tags, "mutation")
-		}
-		nt := strings.Contains(text, "...") || strings.Contains(text, "@") || strings.Contains(text, "_1") || strings.Contains(text, "_2")
-		if wrap != nil {
-			obs.coq = wrap(obs.coq)
-		}
-		c := Case{Group: prop + "-request", Coq: obs.coq, Desc: obs.desc, NT: nt && obs.nCalls > 0, Tags: tags}
-		if len(obs.fails) > 0 {
-			c.Fail = strings.Join(obs.fails, "; ")
-		}
-		e.Emit(c)
 	}
 }
